@@ -205,6 +205,96 @@ def key(q):
     return core.digest({"p": "simp", "q": ast.dump(q)})
 
 
+# ---------------------------------------------------------------- histories: a simplified query extended and simplified again
+# The names arg_N are fresh because the counter never goes back within a process (hypothesis `below c q` of the theorem: no
+# arg_N with N >= c occurs in q).  A backend that simplifies a query, puts a further operator on the result and simplifies
+# again - with a new simplify_chained_calls object, in the same process - relies on exactly that.  The model is run with the
+# counter the first run left behind.
+
+HISTORY_WRAPPERS = ["Select(Q, lambda w_: (w_, 1))", "Where(Q, lambda w_: 2 > 1)", "Select(Q, lambda e: (e, 2))",
+                    "Select(Select(Q, lambda w_: (w_, 1)), lambda v_: v_[0])"]
+
+
+def impl_history(q1: ast.expr, wrapper: str):
+    """-> (status, q2, r2, c1): q2 = wrapper[Q := simplify(q1)], r2 = simplify(q2), the counter NOT reset in between"""
+    import func_adl.ast.function_simplifier as fs
+
+    fs.argument_var_counter = 0
+    try:
+        r1 = fs.simplify_chained_calls().visit(copy.deepcopy(q1))
+    except Exception:  # noqa
+        return "first-raises", None, None, None
+    c1 = fs.argument_var_counter
+
+    class Put(ast.NodeTransformer):
+        def visit_Name(self, n):
+            return copy.deepcopy(r1) if n.id == "Q" else n
+
+    q2 = Put().visit(sc.parse(wrapper))
+    try:
+        r2 = fs.simplify_chained_calls().visit(copy.deepcopy(q2))
+    except fs.FuncADLIndexError:
+        return "indexerr", q2, None, c1
+    except RecursionError:
+        return "recursion", q2, None, c1
+    except Exception as ex:  # noqa
+        return "crash:" + type(ex).__name__, q2, None, c1
+    return "ok", q2, r2, c1
+
+
+def check_histories(ctx, qs, datasets, only=None):
+    import func_adl.ast.function_simplifier as fs
+
+    todo = []
+    for q in qs:
+        for w in HISTORY_WRAPPERS:
+            if only is not None and w != only:
+                continue
+            st, q2, r2, c1 = impl_history(q, w)
+            if st == "first-raises" or sc.has_raw(q2):
+                continue
+            todo.append((q, w, st, q2, r2, c1, fs.argument_var_counter))
+    rows = [[str(max(sc.FUEL_MIN, sc.FUEL_PER_NODE * sc.node_count(q2))), str(c1), bridge.to_sx(q2)] for (_, _, _, q2, _, c1, _) in todo]
+    answers = ctx.driver.call("simp", rows)
+    for (q, w, st, q2, r2, c1, c2), m in zip(todo, answers):
+        ctx.evaluations += 1
+        ctx.corr_cases += 1
+        ctx.count("history", "fresh names in the first result" if any(
+            isinstance(n, ast.arg) and sc._ARG.match(n.arg) for n in ast.walk(q2)) else "no fresh name in the first result")
+        wit = {"oracle": "history", "query": ast.unparse(q), "query_dump": ast.dump(q), "wrapper": w}
+        k = core.digest({"p": "simp-history", "q": ast.dump(q), "w": w})
+        failed = False
+        if st == "ok":
+            extra = sc.free_names(r2) - sc.free_names(q2) - {"Select", "Where", "SelectMany", "First"}
+            if extra:
+                failed = True
+                ctx.fail("failing-input", "simplify(%s), then %s on the result simplified again in the same process: unbound name(s) %s in %s"
+                         % (bridge.dump(q), w, sorted(extra), bridge.dump(r2)), wit, key=k)
+            else:
+                for i, ds in enumerate(datasets):
+                    a = sc.pyeval(q2, ds)
+                    if a[0] != "ok":
+                        ctx.count("history_eval", "extended query raises")
+                        continue
+                    b = sc.pyeval(r2, ds)
+                    ctx.count("history_eval", "compared")
+                    if a != b:
+                        failed = True
+                        ctx.fail("failing-input", "simplify(%s) = Q, then simplify(%s) in the same process = %s evaluates to %r, the "
+                                 "query it was given to %r on dataset #%d" % (bridge.dump(q), w, bridge.dump(r2), b, a, i),
+                                 dict(wit, dataset=i), key=k)
+                        break
+        impl_ln = ("OK %d %s" % (c2, bridge.to_sx(r2))) if st == "ok" else {"indexerr": "INDEXERR", "recursion": "RECURSION"}.get(st, "CRASH")
+        model_ln = "CRASH" if m.startswith("CRASH") else m
+        kind = sc.same_result(impl_ln, model_ln)
+        ctx.count("history_correspondence", kind)
+        if kind == "differ" and not failed and model_ln != "OUTOFFUEL":
+            ctx.corr_disagreements += 1
+            ctx.fail("no-failing-input-found", "correspondence simp (counter %d, Model/Simplify.v) vs a second simplify_chained_calls in the "
+                     "same process broke on %s: model %s, code %s" % (c1, bridge.dump(q2), model_ln[:300], impl_ln[:300]),
+                     dict(wit, correspondence="simp-history", model=model_ln[:2000], impl=impl_ln[:2000]), key=k + "c")
+
+
 def run(ctx):
     datasets = sc.make_datasets(__import__("random").Random(20260927))
     # 1. corpus
@@ -239,6 +329,12 @@ def run(ctx):
         check_case(ctx, q, m, datasets, lab)
         if m == "OUTOFFUEL":
             ctx.count("model", "OUTOFFUEL")
+    # 4. histories: simplified, extended, simplified again without resetting the counter
+    base = len(CORPUS) + len(hf) + n_enum
+    hq = qs[:len(CORPUS) + len(hf)] + qs[base: base + ctx.budget(250, 4000)]
+    hq = [q for q in hq if not sc.has_raw(q)]
+    check_histories(ctx, hq, datasets)
+    ctx.notes.append("histories: %d queries x %d wrappers simplified, extended, simplified again in the same process" % (len(hq), len(HISTORY_WRAPPERS)))
     for q in qs[8:11] + qs[len(CORPUS) + len(hf) + n_enum: len(CORPUS) + len(hf) + n_enum + 3]:
         st, out, _ = sc.impl(q)
         ctx.sample({"query": bridge.dump(q), "simplified": bridge.dump(out) if st == "ok" else st})
@@ -247,5 +343,8 @@ def run(ctx):
 def replay(ctx, w):
     q = eval(w["query_dump"], dict(vars(ast)))
     datasets = sc.make_datasets(__import__("random").Random(20260927))
+    if w.get("oracle") == "history" or w.get("correspondence") == "simp-history":
+        check_histories(ctx, [q], datasets, only=w["wrapper"])
+        return
     m = sc.model_lines(ctx, [q])[0]
     check_case(ctx, q, m, datasets, "replay")
